@@ -41,6 +41,23 @@ void eval(Ctx& c) {
   c.set("source_t" + suf, Q);
   c.set("exact_t" + suf, Tt.v);   // compared only where the solution provides it
 }
+// a point on a nodal (phase = odd multiple of pi/2) or extremal (multiple of pi) set of one cosine factor of T
+void nodal(vh::Rng& r, const std::map<std::string, long double>& P, long double* xs, int n) {
+  auto get = [&](const char* k) { auto it = P.find(k); return it == P.end() ? 0.0L : it->second; };
+  const char* A[3] = {"A_x", "B_y", "C_z"};
+  const char* At[3] = {"A_t", "B_t", "C_t"};
+  bool unsteady = P.count("D_t") > 0;
+  int dim = unsteady ? n - 1 : n;
+  long double target = (long double)(r.below(9) - 4) * (M_PIl / 2);
+  int f = r.below(dim + (unsteady ? 1 : 0));
+  if (f < dim) {
+    long double a = get(A[f]), at = unsteady ? get(At[f]) * xs[dim] : 0;
+    if (a != 0) xs[f] = (target - at) / a;
+  } else {
+    long double dt = get("D_t");
+    if (dt != 0) xs[dim] = target / dt;
+  }
+}
 }  // namespace
 
 void reg_heat() {
@@ -50,6 +67,7 @@ void reg_heat() {
         Sol s; s.name = "heateq_" + std::to_string(dim) + "d_" + st + "_" + cv; s.prop = "C01";
         s.nargs = dim + (std::string(st) == "unsteady" ? 1 : 0);
         s.draw = draw; s.point = box_point; s.eval = eval; s.stretch = 1; s.special_ok = [](const std::string&) { return 2; };
+        s.nodal = nodal;
         add(s);
       }
 }
